@@ -129,7 +129,7 @@ impl<'a> Gen<'a> {
         if self.cfg.tags {
             self.tag += 1;
             let t = self.tag;
-            let extra = *self.rng.pick(&["", "", "'", "?", "$1", "\\", "\"", "é"]);
+            let extra = *self.rng.pick(&["", "", "'", "?", "$1", "\\", "\"", "é", "\r\n", "\u{8}", "%", "_"]);
             X::Text(format!("v{t}{extra}"))
         } else {
             X::Text(self.rng.pick(&["x", "y", "", "p", "q", "abc", "Zed", "a%c", "it's"]).to_string())
